@@ -19,6 +19,16 @@ State space (DESIGN section 4, C03): compounds x density forms x wavelength form
              own neutron_sld method); every
              call is compared with the reference for the values at the time of the call, and the argument objects
              must come back unaltered (thorough: all ordered triples for 9 atoms)
+  tables     several periodic tables in ONE process, every history in a process of its own in which the neutron data
+             of the public table were never touched: events = first use of the public table | private table 1 / 2
+             created, mass and density attached, densities / masses customised by the caller (6 kinds: none, element
+             densities, element masses, both, isotope masses, the divide-everything loop of the customisation guide),
+             then nsf.init(T) | densities and masses of a private table edited after its init; all histories with the
+             public table used before or not before the first private table, one or two private tables and at most one
+             edit.  After EVERY event the direct-query clause is judged for 9 atoms of every table - the public
+             table's atoms with the tabulated masses and densities, a private table's atoms with that table's own
+             (customised) masses and densities: atom.neutron.scattering() / .sld() and the one-atom compound at the
+             atom's density (atom object; string parsed with table=)
 Oracle: mc/ref/neutron.py (docstring equations in plain floats on independently parsed tables); all
 seven outputs compared.  Differential: atom.neutron.scattering()/.sld() against the same equations at the
 element's number density and against neutron_scattering(atom, density=atom.density).  A compound that
@@ -37,7 +47,11 @@ META = dict(
           "pair; every table node / midpoint / outside point of every table-driven atom); a history case is "
           "(compound, kind of compound object, kind of wavelength buffer, ordered pair of call configurations) "
           "executed on the same caller-owned objects, the buffer refilled and the Formula's density assigned in place "
-          "between the calls; non-trivial = the compound has data, so seven reference values exist and are compared"),
+          "between the calls; a table history is a sequence of events (first use of the public table, creation + "
+          "customisation + nsf.init of private table 1 / 2, later edit of a private table) executed in a fresh process, "
+          "after each of which the direct-query clause is judged on every table; "
+          "non-trivial = the compound has data, so seven reference values exist and are compared; a table history is "
+          "non-trivial when it initialises a private table"),
     bound=dict(
         quick="all atoms with data + all ions of 12 elements + 7 isotope ions; all pairs over the 32-atom class "
               "alphabet x 9 count pairs; 4 densities x 4 density forms (natural density also for ions and isotope "
@@ -45,11 +59,15 @@ META = dict(
               "energy=; scalar and vectors of length 1, 2, 5, full grid; histories: all ordered pairs of 16+4 (Formula, with its own "
               "neutron_sld method), "
               "12 (list), 12+4 (atom, with the direct queries) configurations x {array, list, scalar} wavelength arguments for the 32+6 "
-              "one-atom compounds and the 36 pairs over the 9-atom sub-alphabet",
+              "one-atom compounds and the 36 pairs over the 9-atom sub-alphabet; table histories: 312 histories "
+              "(public table used before / not before the first private table) x (6 customisations of table 1) x (alone | "
+              "edited | x 6 customisations of table 2 x (plain | table 1 edited before | table 1 edited after | table 2 "
+              "edited)), 9 atoms x 6-7 queries per table after every event",
         thorough="quick + all triples over a 9-atom sub-alphabet x 27 count triples; quarter points between table "
                  "nodes; node sweeps in every density form at density 1 and with density=25; histories for all 496 "
                  "pairs over the class alphabet, all ordered TRIPLES of configurations for the 9 one-atom compounds of "
-                 "the sub-alphabet"),
+                 "the sub-alphabet; table histories: the same 312 histories with all 32 neutral atoms of the class "
+                 "alphabet and 13 queries per atom"),
     assumptions=[
         "the embedded table text (nsf.nsftable, nsf_tables, mass, density) is the source of truth; that the library "
         "serves those values is C06/C07",
@@ -66,6 +84,12 @@ META = dict(
         "of a fragment list and the bytes / items of a wavelength or energy vector must be the same after a call as "
         "before; private memo attributes a refactoring might add to a Formula are not looked at.  Table atoms are "
         "library objects; their state is C09/C10",
+        "several tables: a private table is customised through the attributes _density / _mass of its elements and "
+        "_mass of its isotopes BEFORE nsf.init(table), as in doc/sphinx/guide/customizing.rst; 'that atom's density' of "
+        "an atom of a private table is the density that table serves (customised value; isotope: same number density "
+        "as the element), its mass the customised mass.  The number density of the direct query is the one at the time "
+        "nsf.init attached the data (source comment in nsf.init): after a later edit of _density / _mass the edited "
+        "elements of THAT table are not judged; all other atoms of all tables still are",
         "history cases use vectors of length 3 and scalars; compound strings are immutable and their repeated use is "
         "covered by the order of the plain cases only",
     ],
